@@ -256,12 +256,28 @@ type cycle struct {
 	ObservedC []map[int]num   // the same for the cumulative reader's round
 	Plan      [][]Obs         // observation plan in force
 	Recorded  []map[int][]num // per sync instrument: set -> values recorded since the previous collection point
-	RanMulti  []bool          // multi callback slot registered (hence run) in this cycle
-	StrayObs  bool            // some callback observed an instrument it is not registered for
-	Failed    bool            // some callback that ran in this cycle returned an error
-	FailMode  map[int]int     // callback id -> mode in force
-	Burst     string          // "": collectBoth; "d" / "c": part of a concurrent step on that reader
-	BurstPos  int             // position within the burst (0-based, serial order)
+	// GaugeLast: per sync instrument: set -> the values one of which is "the
+	// last value recorded" when the stream's most recent records were made by
+	// several goroutines at once (the last record of each of them); absent:
+	// the last element of Recorded.
+	GaugeLast []map[int][]num
+	// Volley: per sync instrument: set -> largest number of goroutines that
+	// recorded to the stream in one concurrent-record step of the cycle;
+	// VolleyFirst: the stream had not been recorded in the cycle before that step.
+	Volley      []map[int]int
+	VolleyFirst []map[int]bool
+	// Racing: per sync instrument: sets measured by goroutines that ran at the
+	// same time as this cycle's two Collect calls ("rcol" step): each of those
+	// measurements belongs to this cycle or to the next one, per reader.
+	Racing    []map[int]bool
+	DeltaScr  int // kinds of slices the consumer wrote over in the reader's output (scr* bits actually reached)
+	CumScr    int
+	RanMulti  []bool      // multi callback slot registered (hence run) in this cycle
+	StrayObs  bool        // some callback observed an instrument it is not registered for
+	Failed    bool        // some callback that ran in this cycle returned an error
+	FailMode  map[int]int // callback id -> mode in force
+	Burst     string      // "": collectBoth; "d" / "c": part of a concurrent step on that reader
+	BurstPos  int         // position within the burst (0-based, serial order)
 	DeltaBr   bracket
 	CumBr     bracket
 	Delta     *snap
@@ -286,6 +302,10 @@ type world struct {
 
 	iSync []func(context.Context, int64, int, int) // value, attribute set, spelling of the options
 	fSync []func(context.Context, float64, int, int)
+	// iPrep / fPrep build the options now and return the bare measurement call
+	// (concurrent-record steps: nothing but the call runs behind the barrier).
+	iPrep []func(context.Context, int64, int, int) func()
+	fPrep []func(context.Context, float64, int, int) func()
 	iObs  []metric.Int64Observable
 	fObs  []metric.Float64Observable
 
@@ -305,13 +325,30 @@ type world struct {
 	ambiguous bool // the serial order of some burst's outputs could not be told from their timestamps
 
 	// callback behaviour
-	failMode map[int]int // callback id -> 0 ok, 1 return an error before observing, 2 observe then return an error
-	failLeft map[int]int // callback id -> collection steps the mode still lasts (0: no limit)
-	mu       sync.Mutex
-	inBurst  bool
-	delay    int             // vk.Perturb kind executed inside observing callbacks during a burst
-	inv      map[int]int     // callback id -> invocations during the running burst
-	pending  []map[int][]num // records of the running cycle
+	failMode    map[int]int // callback id -> 0 ok, 1 return an error before observing, 2 observe then return an error
+	failLeft    map[int]int // callback id -> collection steps the mode still lasts (0: no limit)
+	mu          sync.Mutex
+	inBurst     bool
+	delay       int             // vk.Perturb kind executed inside observing callbacks during a burst
+	inv         map[int]int     // callback id -> invocations during the running burst
+	pending     []map[int][]num // records of the running cycle
+	gaugeLast   []map[int][]num
+	volley      []map[int]int
+	volleyFirst []map[int]bool
+	racing      []map[int]bool
+	everRec     map[[2]int]bool // streams recorded at least once so far
+	firstEver   bool            // some concurrent-record step made the first measurements ever of a stream from >= 2 goroutines
+}
+
+// resetPending starts the records of a new cycle.
+func (w *world) resetPending() {
+	n := len(w.sdefs)
+	w.pending, w.gaugeLast = make([]map[int][]num, n), make([]map[int][]num, n)
+	w.volley, w.volleyFirst, w.racing = make([]map[int]int, n), make([]map[int]bool, n), make([]map[int]bool, n)
+	for i := 0; i < n; i++ {
+		w.pending[i], w.gaugeLast[i] = map[int][]num{}, map[int][]num{}
+		w.volley[i], w.volleyFirst[i], w.racing[i] = map[int]int{}, map[int]bool{}, map[int]bool{}
+	}
 }
 
 func (w *world) validSet(s int) bool { return s >= 0 && s < w.c.NSets && s < maxSets }
@@ -523,7 +560,8 @@ func execute(c Case) *world {
 		}
 		return p
 	}
-	w.pending = newPending()
+	w.resetPending()
+	w.everRec = map[[2]int]bool{}
 
 	maxSize := int32(w.c.ExpoMaxSize)
 	if maxSize < 3 {
@@ -564,6 +602,8 @@ func execute(c Case) *world {
 	// ---- sync instruments: up front unless the case lists them as late ----
 	w.iSync = make([]func(context.Context, int64, int, int), len(w.sdefs))
 	w.fSync = make([]func(context.Context, float64, int, int), len(w.sdefs))
+	w.iPrep = make([]func(context.Context, int64, int, int) func(), len(w.sdefs))
+	w.fPrep = make([]func(context.Context, float64, int, int) func(), len(w.sdefs))
 	w.syncBr = make([]bracket, len(w.sdefs))
 	w.createdAt = make([]int, len(w.sdefs))
 	for i := range w.sdefs {
@@ -593,7 +633,7 @@ func execute(c Case) *world {
 	var deltaRM, cumRM metricdata.ResourceMetrics // the readers' own reused outputs
 	var pool [rmPool]metricdata.ResourceMetrics   // shared slots
 	var poolLast [rmPool]*sdkmetric.ManualReader  // who filled the slot last
-	collect := func(r *sdkmetric.ManualReader, own *metricdata.ResourceMetrics, slot int) (rm *metricdata.ResourceMetrics, sn *snap, br bracket, err error, is string, handover bool) {
+	collect := func(r *sdkmetric.ManualReader, own *metricdata.ResourceMetrics, slot, scr, style int) (rm *metricdata.ResourceMetrics, sn *snap, br bracket, err error, is string, handover bool, reached int) {
 		switch {
 		case slot >= 1 && slot <= rmPool:
 			rm, is = &pool[slot-1], fmt.Sprintf("pool%d", slot)
@@ -608,10 +648,12 @@ func execute(c Case) *world {
 		err = r.Collect(ctx, rm)
 		br.After = time.Now()
 		sn = w.takeSnap(rm)
-		if is != "fresh" {
-			rm = nil // will be overwritten; nothing to re-read later
+		// the consumer has read the data (sn); now it may write over it
+		reached = scribble(rm, scr, style)
+		if is != "fresh" || reached != 0 {
+			rm = nil // will be overwritten / was overwritten by its owner; nothing to re-read later
 		}
-		return rm, sn, br, err, is, handover
+		return rm, sn, br, err, is, handover, reached
 	}
 	steps := w.c.Ops
 	if len(steps) > maxSteps {
@@ -638,6 +680,36 @@ func execute(c Case) *world {
 				w.iSync[op.Inst](ctx, intValue(op.V, op.I), op.Set, op.Sp)
 			}
 			w.pending[op.Inst][op.Set] = append(w.pending[op.Inst][op.Set], modelValue(op.V, op.I, d.float))
+			delete(w.gaugeLast[op.Inst], op.Set)
+			w.everRec[[2]int{op.Inst, op.Set}] = true
+		case "crec":
+			w.concurrentRecords(ctx, op)
+		case "rcol":
+			// records during collection: the recording goroutines and the two
+			// Collect calls (each into a fresh ResourceMetrics) start together.
+			var d, c struct {
+				rm  *metricdata.ResourceMetrics
+				br  bracket
+				err error
+			}
+			w.concurrentRecords(ctx, op, func() {
+				d.rm = &metricdata.ResourceMetrics{}
+				d.br.Before = time.Now()
+				d.err = deltaR.Collect(ctx, d.rm)
+				d.br.After = time.Now()
+			}, func() {
+				c.rm = &metricdata.ResourceMetrics{}
+				c.br.Before = time.Now()
+				c.err = cumR.Collect(ctx, c.rm)
+				c.br.After = time.Now()
+			})
+			cy := w.newCycle(1, 1)
+			cy.Racing = w.racing
+			cy.deltaRM, cy.Delta, cy.DeltaBr, cy.DeltaErr, cy.DeltaRMIs = d.rm, w.takeSnap(d.rm), d.br, d.err, "fresh"
+			cy.cumRM, cy.Cum, cy.CumBr, cy.CumErr, cy.CumRMIs = c.rm, w.takeSnap(c.rm), c.br, c.err, "fresh"
+			w.cycles = append(w.cycles, cy)
+			w.resetPending()
+			w.stepDone()
 		case "plan":
 			if op.Inst < 0 || op.Inst >= len(w.odefs) {
 				continue
@@ -698,15 +770,15 @@ func execute(c Case) *world {
 			cy := w.newCycle(1, 1)
 			var h1, h2 bool
 			if op.CumFirst {
-				cy.cumRM, cy.Cum, cy.CumBr, cy.CumErr, cy.CumRMIs, h1 = collect(cumR, &cumRM, op.CRM)
-				cy.deltaRM, cy.Delta, cy.DeltaBr, cy.DeltaErr, cy.DeltaRMIs, h2 = collect(deltaR, &deltaRM, op.DRM)
+				cy.cumRM, cy.Cum, cy.CumBr, cy.CumErr, cy.CumRMIs, h1, cy.CumScr = collect(cumR, &cumRM, op.CRM, op.CScr, op.Style)
+				cy.deltaRM, cy.Delta, cy.DeltaBr, cy.DeltaErr, cy.DeltaRMIs, h2, cy.DeltaScr = collect(deltaR, &deltaRM, op.DRM, op.DScr, op.Style)
 			} else {
-				cy.deltaRM, cy.Delta, cy.DeltaBr, cy.DeltaErr, cy.DeltaRMIs, h1 = collect(deltaR, &deltaRM, op.DRM)
-				cy.cumRM, cy.Cum, cy.CumBr, cy.CumErr, cy.CumRMIs, h2 = collect(cumR, &cumRM, op.CRM)
+				cy.deltaRM, cy.Delta, cy.DeltaBr, cy.DeltaErr, cy.DeltaRMIs, h1, cy.DeltaScr = collect(deltaR, &deltaRM, op.DRM, op.DScr, op.Style)
+				cy.cumRM, cy.Cum, cy.CumBr, cy.CumErr, cy.CumRMIs, h2, cy.CumScr = collect(cumR, &cumRM, op.CRM, op.CScr, op.Style)
 			}
 			cy.Handover = h1 || h2
 			w.cycles = append(w.cycles, cy)
-			w.pending = newPending()
+			w.resetPending()
 			w.stepDone()
 		case "burst":
 			// N concurrent Collect calls on one reader (each into its own fresh
@@ -728,6 +800,7 @@ func execute(c Case) *world {
 				sn  *snap
 				br  bracket
 				err error
+				scr int
 			}
 			one := func(r *sdkmetric.ManualReader) out {
 				o := out{rm: &metricdata.ResourceMetrics{}}
@@ -752,6 +825,20 @@ func execute(c Case) *world {
 			w.mu.Unlock()
 			if !op.CumFirst {
 				other = one(otherR)
+			}
+			// every output has been read (snapshots); the consumer may now write
+			// over what it was handed
+			burstScr, otherScr := op.DScr, op.CScr
+			if burstR == cumR {
+				burstScr, otherScr = op.CScr, op.DScr
+			}
+			for g := range outs {
+				if outs[g].scr = scribble(outs[g].rm, burstScr, op.Style); outs[g].scr != 0 {
+					outs[g].rm = nil
+				}
+			}
+			if other.scr = scribble(other.rm, otherScr, op.Style); other.scr != 0 {
+				other.rm = nil
 			}
 			// serial order of the burst's outputs: by the earliest point Time;
 			// outputs without points last.
@@ -801,30 +888,31 @@ func execute(c Case) *world {
 				if g > 0 {
 					cy = w.newCycle(g+1, g+1)
 					cy.Recorded = newPending()
+					cy.GaugeLast, cy.Volley, cy.VolleyFirst = nil, nil, nil
 				}
 				cy.Burst, cy.BurstPos = op.R, g
 				if cy.Burst != "c" {
 					cy.Burst = "d"
 				}
 				if burstR == deltaR {
-					cy.deltaRM, cy.Delta, cy.DeltaBr, cy.DeltaErr, cy.DeltaRMIs = outs[g].rm, outs[g].sn, outs[g].br, outs[g].err, "fresh"
+					cy.deltaRM, cy.Delta, cy.DeltaBr, cy.DeltaErr, cy.DeltaRMIs, cy.DeltaScr = outs[g].rm, outs[g].sn, outs[g].br, outs[g].err, "fresh", outs[g].scr
 					cy.ObservedC = nil
 				} else {
-					cy.cumRM, cy.Cum, cy.CumBr, cy.CumErr, cy.CumRMIs = outs[g].rm, outs[g].sn, outs[g].br, outs[g].err, "fresh"
+					cy.cumRM, cy.Cum, cy.CumBr, cy.CumErr, cy.CumRMIs, cy.CumScr = outs[g].rm, outs[g].sn, outs[g].br, outs[g].err, "fresh", outs[g].scr
 					cy.ObservedD = nil
 				}
 				if g == 0 {
 					if otherR == deltaR {
-						cy.deltaRM, cy.Delta, cy.DeltaBr, cy.DeltaErr, cy.DeltaRMIs = other.rm, other.sn, other.br, other.err, "fresh"
+						cy.deltaRM, cy.Delta, cy.DeltaBr, cy.DeltaErr, cy.DeltaRMIs, cy.DeltaScr = other.rm, other.sn, other.br, other.err, "fresh", other.scr
 						cy.ObservedD, _, _ = w.observedNow(1)
 					} else {
-						cy.cumRM, cy.Cum, cy.CumBr, cy.CumErr, cy.CumRMIs = other.rm, other.sn, other.br, other.err, "fresh"
+						cy.cumRM, cy.Cum, cy.CumBr, cy.CumErr, cy.CumRMIs, cy.CumScr = other.rm, other.sn, other.br, other.err, "fresh", other.scr
 						cy.ObservedC, _, _ = w.observedNow(1)
 					}
 				}
 				w.cycles = append(w.cycles, cy)
 			}
-			w.pending = newPending()
+			w.resetPending()
 			w.stepDone()
 		}
 	}
@@ -959,18 +1047,34 @@ func (w *world) makeSync(i int, m metric.Meter) {
 		var in metric.Int64Counter
 		in, err = m.Int64Counter(d.name, metric.WithUnit(d.unit), metric.WithDescription(d.desc))
 		w.iSync[i] = func(ctx context.Context, v int64, s, sp int) { in.Add(ctx, v, addOpts(s, sp, true)...) }
+		w.iPrep[i] = func(ctx context.Context, v int64, s, sp int) func() {
+			o := addOpts(s, sp, true)
+			return func() { in.Add(ctx, v, o...) }
+		}
 	case d.kind == kCounter:
 		var in metric.Float64Counter
 		in, err = m.Float64Counter(d.name, metric.WithUnit(d.unit), metric.WithDescription(d.desc))
 		w.fSync[i] = func(ctx context.Context, v float64, s, sp int) { in.Add(ctx, v, addOpts(s, sp, true)...) }
+		w.fPrep[i] = func(ctx context.Context, v float64, s, sp int) func() {
+			o := addOpts(s, sp, true)
+			return func() { in.Add(ctx, v, o...) }
+		}
 	case d.kind == kUpDown && !d.float:
 		var in metric.Int64UpDownCounter
 		in, err = m.Int64UpDownCounter(d.name, metric.WithUnit(d.unit), metric.WithDescription(d.desc))
 		w.iSync[i] = func(ctx context.Context, v int64, s, sp int) { in.Add(ctx, v, addOpts(s, sp, true)...) }
+		w.iPrep[i] = func(ctx context.Context, v int64, s, sp int) func() {
+			o := addOpts(s, sp, true)
+			return func() { in.Add(ctx, v, o...) }
+		}
 	case d.kind == kUpDown:
 		var in metric.Float64UpDownCounter
 		in, err = m.Float64UpDownCounter(d.name, metric.WithUnit(d.unit), metric.WithDescription(d.desc))
 		w.fSync[i] = func(ctx context.Context, v float64, s, sp int) { in.Add(ctx, v, addOpts(s, sp, true)...) }
+		w.fPrep[i] = func(ctx context.Context, v float64, s, sp int) func() {
+			o := addOpts(s, sp, true)
+			return func() { in.Add(ctx, v, o...) }
+		}
 	case (d.kind == kHist || d.kind == kExpo) && !d.float:
 		var in metric.Int64Histogram
 		io := []metric.Int64HistogramOption{metric.WithUnit(d.unit), metric.WithDescription(d.desc)}
@@ -979,6 +1083,10 @@ func (w *world) makeSync(i int, m metric.Meter) {
 		}
 		in, err = m.Int64Histogram(d.name, io...)
 		w.iSync[i] = func(ctx context.Context, v int64, s, sp int) { in.Record(ctx, v, recOpts(s, sp, true)...) }
+		w.iPrep[i] = func(ctx context.Context, v int64, s, sp int) func() {
+			o := recOpts(s, sp, true)
+			return func() { in.Record(ctx, v, o...) }
+		}
 	case d.kind == kHist || d.kind == kExpo:
 		var in metric.Float64Histogram
 		fo := []metric.Float64HistogramOption{metric.WithUnit(d.unit), metric.WithDescription(d.desc)}
@@ -987,14 +1095,26 @@ func (w *world) makeSync(i int, m metric.Meter) {
 		}
 		in, err = m.Float64Histogram(d.name, fo...)
 		w.fSync[i] = func(ctx context.Context, v float64, s, sp int) { in.Record(ctx, v, recOpts(s, sp, true)...) }
+		w.fPrep[i] = func(ctx context.Context, v float64, s, sp int) func() {
+			o := recOpts(s, sp, true)
+			return func() { in.Record(ctx, v, o...) }
+		}
 	case d.kind == kGauge && !d.float:
 		var in metric.Int64Gauge
 		in, err = m.Int64Gauge(d.name, metric.WithUnit(d.unit), metric.WithDescription(d.desc))
 		w.iSync[i] = func(ctx context.Context, v int64, s, sp int) { in.Record(ctx, v, recOpts(s, sp, true)...) }
+		w.iPrep[i] = func(ctx context.Context, v int64, s, sp int) func() {
+			o := recOpts(s, sp, true)
+			return func() { in.Record(ctx, v, o...) }
+		}
 	default:
 		var in metric.Float64Gauge
 		in, err = m.Float64Gauge(d.name, metric.WithUnit(d.unit), metric.WithDescription(d.desc))
 		w.fSync[i] = func(ctx context.Context, v float64, s, sp int) { in.Record(ctx, v, recOpts(s, sp, true)...) }
+		w.fPrep[i] = func(ctx context.Context, v float64, s, sp int) func() {
+			o := recOpts(s, sp, true)
+			return func() { in.Record(ctx, v, o...) }
+		}
 	}
 	if err != nil {
 		w.fail("creating %s: %v", d.key, err)
@@ -1004,7 +1124,7 @@ func (w *world) makeSync(i int, m metric.Meter) {
 // newCycle starts the model part of a cycle whose delta / cumulative callback
 // rounds are the given invocation numbers.
 func (w *world) newCycle(roundD, roundC int) *cycle {
-	cy := &cycle{Recorded: w.pending, RanMulti: append([]bool{}, w.registered...), Plan: append([][]Obs{}, w.plan...)}
+	cy := &cycle{Recorded: w.pending, GaugeLast: w.gaugeLast, Volley: w.volley, VolleyFirst: w.volleyFirst, RanMulti: append([]bool{}, w.registered...), Plan: append([][]Obs{}, w.plan...)}
 	cy.FailMode = map[int]int{}
 	for id, m := range w.failMode {
 		cy.FailMode[id] = m
